@@ -867,6 +867,10 @@ func c11DelayClass(us int) string {
 }
 
 func init() {
+	constGens = append(constGens, func() {
+		_, fq := transport.VerifC11QueueCaps(0)
+		fmt.Printf("Definition c_c11_failq_cap := %d.\n", fq) // the model's failure queue holds one request
+	})
 	props["C11"] = func(a Args) {
 		runProp(Prop[c11Case]{
 			ID:       "C11",
